@@ -29,7 +29,7 @@ func init() {
 			"R2": "DWR sender: MaxRetransmits+1 transmissions of one request, RetransmitInterval spacing, ack → no Close, exhaustion → Close",
 			"R3": "DWA forwarded as acknowledgement only when its Result-Code is Success, without blocking",
 			"R4": "DWR answered with Success DWA carrying the local identity, on the same connection; registered in sm.New",
-			"R5": "read deadlines come from the application's Server.ReadTimeout only; the library never assigns that setting",
+			"R5": "read deadlines come from the application's Server.ReadTimeout only; the library never assigns that setting, and writes Client.WatchdogInterval / RetransmitInterval only as constant defaults for unset values",
 		},
 		MinInstances: map[string]int{"R1": 2, "R2": 5, "R3": 1, "R4": 3, "R5": 2},
 		Assumptions:  []string{"time.After(d) fires no earlier than d"},
@@ -39,6 +39,7 @@ func init() {
 func runC13(c *Ctx) {
 	r := c.R
 	c.c13Deadlines()
+	c.c13Intervals()
 	hs, _ := c.handshakeFn()
 	if hs == nil {
 		r.Undecided("R1", "role:HandshakeFn", "-", "handshake function not found")
@@ -866,5 +867,51 @@ func (c *Ctx) c13Deadlines() {
 		} else {
 			r.Ok("R5", "Server.ReadTimeout:never-assigned", "-", fmt.Sprintf("%d stores to fields of diam.Server in the library, none to ReadTimeout", nServerStores))
 		}
+	}
+}
+
+// c13Intervals (R5): the intervals the application configures are the intervals used. The library writes
+// Client.WatchdogInterval / Client.RetransmitInterval only to fill in a default: a constant, on the edge where the
+// same field was read as zero. A value computed from another setting (raised to the retransmission interval,
+// capped, rounded) changes how often DWRs leave on a healthy connection.
+func (c *Ctx) c13Intervals() {
+	r := c.R
+	n := 0
+	occ := map[string]int{}
+	for _, f := range c.P.LibraryFuncs() {
+		if pkgOf(f).Path() != pkgSM {
+			continue
+		}
+		flow.Instrs(f, func(in ssa.Instruction) {
+			st, ok := in.(*ssa.Store)
+			if !ok {
+				return
+			}
+			tn, fld, _, ok := flow.FieldOf(st.Addr)
+			if !ok || tn != "Client" || (fld != "WatchdogInterval" && fld != "RetransmitInterval") {
+				return
+			}
+			n++
+			occ[fname(f)+fld]++
+			key := fmt.Sprintf("%s:assigns-Client.%s-only-as-default#%d", fname(f), fld, occ[fname(f)+fld])
+			_, isConst := flow.Peel(st.Val).(*ssa.Const)
+			onZero := false
+			for _, g := range flow.Guards(st) {
+				rl, ok := condRel(g.If.Cond, g.Taken)
+				if !ok || rl.op != token.EQL {
+					continue
+				}
+				for _, pr := range [][2]ssa.Value{{rl.a, rl.b}, {rl.b, rl.a}} {
+					if t2, f2, _, ok2 := flow.FieldOf(flow.Peel(pr[0])); ok2 && t2 == "Client" && f2 == fld && isZeroConst(pr[1]) {
+						onZero = true
+					}
+				}
+			}
+			r.Check(isConst && onZero, "R5", key, c.pos(st), "the setting is written only with a constant default, where the application left it zero",
+				"the library overwrites the application's Client."+fld+" ("+short(st.Val.String(), 40)+") other than with a constant default for an unset value: watchdog requests then leave at another rhythm than the one configured")
+		})
+	}
+	if n == 0 {
+		r.Trivial("R5", "client-intervals:never-assigned", "-", "the library never assigns Client.WatchdogInterval / RetransmitInterval")
 	}
 }
